@@ -561,10 +561,12 @@ def _get_fcp(
     logger.add_source(filename.name, source)
     try:
         fcp_ast = fcp_parser.parse(source)
-    except UnexpectedCharacters as e:
+    except (UnexpectedCharacters, UnexpectedEOF) as e:
+        # an unexpected end of input has no position (line -1): cite the last line
+        line = e.line if e.line > 0 else len(source.split("\n"))
         return error(
             logger.log_lark(filename.name, e),
-            Token(MetaData(e.line, e.line, e.column, e.column, 0, 0, str(filename))),
+            Token(MetaData(line, line, e.column, e.column, 0, 0, str(filename))),
         )
 
     parser_context = ParserContext()
